@@ -477,6 +477,31 @@ pub fn run_session<C: Autocomplete + Help>(
             th = hash_u64s(&[th, crate::prng::hash_bytes(1, &r.name), r.args.len() as u64]);
         }
 
+        if cfg.cmd > 255 || cfg.hist > 255 {
+            // what the large-buffer sessions are for: did quantities actually cross one octet?
+            if post.line.len() > 255 {
+                rep.count("large.calls_with_line_over_255_bytes");
+            }
+            if post.cursor > 255 {
+                rep.count("large.calls_with_cursor_over_255");
+            }
+            if term.col > 255 {
+                rep.count("large.calls_with_column_over_255");
+            }
+            if let Some(h) = &post_hist {
+                if h.used > 255 {
+                    rep.count("large.calls_with_history_over_255_bytes");
+                }
+                if matches!(key, Shadow::Key(Key::Enter)) && h.used_bytes.iter().filter(|&&b| b == 0).count() > 255 {
+                    rep.count("large.enters_with_over_255_stored_entries");
+                }
+            }
+            for r in &rig.proc.log[log0..] {
+                if r.args.len() > 255 {
+                    rep.count("large.dispatches_with_over_255_items");
+                }
+            }
+        }
         if let Err(e) = result {
             found!("C03", P_C03, "spurious-error", "err-without-fault", i, "API call returned {:?} although the sink never failed", e);
             res.transcript = th;
